@@ -198,7 +198,7 @@ def run_class_case(ci, pool):
 
 
 # ---- special shapes: bundles, observed-data containers, markings, toplevel-property extensions, datetime inputs in other zones
-NSPECIAL = 22
+NSPECIAL = 24
 
 
 def special_shapes(si: int) -> bool:
@@ -352,6 +352,35 @@ def run_special_case(si):
                 rr = roundtrip_ok(o, cls, _MODEL[ver]["objects"]["identity"]["order"])
                 if rr is not True:
                     return (ver, list(cp)) + rr
+        return True
+    if si == 22:
+        # properties licensed by an UNREGISTERED toplevel-property-extension are written in the order they were given (any order would do for the
+        # round trip, but it must not depend on the interpreter's hash seed: a definite order is the only observable way to say so)
+        ext = {"extension-definition--" + UU: {"extension_type": "toplevel-property-extension"}}
+        names = ["theta", "alpha", "iota", "beta", "eta", "zeta_long_name", "b2"]
+        for cls, extra in ((stix2.v21.Identity, {"name": "x"}), (stix2.v21.File, {"name": "f"}), (stix2.v21.Relationship, {"source_ref": "malware--" + UU, "target_ref": "identity--" + UU,
+                                                                                                                            "relationship_type": "uses"})):
+            for perm in (names, names[::-1], names[3:] + names[:3]):
+                o = cls(extensions=ext, **dict(extra, **{n: i for i, n in enumerate(perm)}))
+                text = o.serialize()
+                got = [k for k in keys_in_order(o.serialize(pretty=True)) if k in names]
+                if got != perm:
+                    return ("toplevel extension properties not in the order given", got)
+                back = stix2.parse(text)
+                if back != o or back.serialize() != text:
+                    return ("toplevel extension properties", cls.__name__)
+        return True
+    if si == 23:
+        # values that are not in the form the library writes (bytes for a binary property, text for numbers and booleans): the object holds what
+        # it writes, so that it equals what is read back
+        cases = [lambda: stix2.v21.Artifact(payload_bin=b"aGVsbG8=", mime_type="text/plain"), lambda: stix2.v20.Artifact(payload_bin=bytearray(b"aGVsbG8="), mime_type="text/plain"),
+                 lambda: stix2.v21.File(name="f", size="12"), lambda: stix2.v21.Malware(name="m", is_family="true"), lambda: stix2.v21.Location(latitude="1.5", longitude=2),
+                 lambda: stix2.v21.Process(pid="7", is_hidden="false"), lambda: stix2.v21.Identity(name="i", confidence="0", revoked="false")]
+        for mk in cases:
+            o = mk()
+            back = stix2.parse(o.serialize())
+            if type(back) is not type(o) or back != o or back.serialize() != o.serialize():
+                return ("value not held in the written form", o.serialize()[:80])
         return True
     if si in (20, 21):
         # one type name offered to two registration decorators (observable then object: si 20; object then observable: si 21), whatever each of
